@@ -264,6 +264,18 @@ def context_case(_):
         out["traces"] += 1
         if fra.arg_hash != want:
             out["violations"].append(("context|hash-differs|%s" % n, "context %s: key %s, documented %s" % (n, fra.arg_hash[:12], want[:12]), {"context": n}))
+    for n, c in ctxs:
+        if not c:
+            continue
+        for label, g in (("force_local", fx.f1.with_context_args(c).force_local()), ("ignore_result", fx.f1.with_context_args(c).ignore_result()),
+                         ("partial", fx.f1.with_context_args(c).partial())):
+            h = g.fn_reference().with_args(1, _memento_context_args=g.context.recursive.context_args).arg_hash
+            out["evaluations"] += 1
+            out["transitions"] += 1
+            if h != hs[n]:
+                out["violations"].append(("context|modifier-after-context|%s" % label, "f1.with_context_args(%s).%s(): key %s, with the context alone %s" % (n, label, h[:12], hs[n][:12]),
+                                          {"context": n}))
+                break
     groups = [["absent", "{}"], ["{k:1,j:fn}", "{j:fn,k:1}"]]
     for a, b in itertools.combinations(hs, 2):
         same = hs[a] == hs[b]
